@@ -5,10 +5,10 @@ TARGETS = {
 PROP = {
     "subchecks": [
         {"target": "c07_buffer_rc", "sub": "buffer",
-         "quick": {"cases": 12000, "max_size": 120, "workers": 6},
+         "quick": {"cases": 30000, "max_size": 120, "workers": 6},
          "thorough": {"cases": 120000, "max_size": 200, "workers": 12}},
         {"target": "c07_buffer_fuzz", "sub": "buffer",
-         "quick": {"runs": 100000, "max_len": 600, "workers": 4},
+         "quick": {"runs": 150000, "max_len": 600, "workers": 4},
          "thorough": {"runs": 300000, "max_len": 1500, "workers": 6}},
     ],
     "assumptions": ["memcpy(dst, nullptr, 0) (formally UB) is not flagged: no listed property claims UB-freedom",
